@@ -121,7 +121,8 @@ theorem line_energy_composed (l1 l2 : Int) (h1 : inI32 l1) (h2 : inI32 l2) (p1 :
   obtain ⟨r1, hr1, hjr1⟩ := catchT_RadRate T Z l1 hZ h1
   obtain ⟨r2, hr2, hjr2⟩ := catchT_RadRate T Z l2 hZ h2
   jeq_norm
-  jeq_auto
+  jeq_simp
+  by_cases c1 : v1 ≤ 0 <;> by_cases c2 : v2 ≤ 0 <;> jeq_auto
 
 /-- `LineEnergy` for every line macro except `LB_LINE` (see W10 for the L-beta group) -/
 theorem java_eq_c_LineEnergy_fuel (f : Nat) (h3 : m ≠ 3) :
